@@ -181,6 +181,16 @@ func genForward(ctx *Ctx, prop string) {
 				}
 				return c
 			}, txt)
+			if isSelect {
+				switch r.Intn(6) {
+				case 0: // comments inside the select clause that mention FROM
+					txt = "SELECT v /* merged from 2 shards */ FROM ks.t WHERE k = 'tok:" + tok + "'"
+				case 1:
+					txt = "SELECT v -- read from 'ks'\n FROM ks.t WHERE k = 'tok:" + tok + "'"
+				case 2:
+					txt = "SELECT \"from\", v AS \"from\" /* from ( */ FROM ks.t WHERE k = 'tok:" + tok + "'"
+				}
+			}
 			if r.Intn(6) == 0 {
 				// content that compresses very well (a long run of one byte): ratios far above 8
 				txt += " " + strings.Repeat(string(rune('a'+r.Intn(26))), 200+r.Intn(ctx.Scale(3000, 60000)))
@@ -278,6 +288,15 @@ func genForward(ctx *Ctx, prop string) {
 			return buf.Bytes()
 		}
 		sent := px.FrameBytes(byte(v), byte(flags), st, byte(msg.GetOpCode()), encBody(flags))
+		if comp == "lz4" && flags.Contains(primitive.HeaderFlagCompressed) && r.Intn(3) == 0 {
+			// a client whose compressor is not the proxy's: the same content as ONE run of literals (a valid block of a
+			// different length than what the reference compressor writes)
+			u := encBody(flags.Remove(primitive.HeaderFlagCompressed))
+			if len(u) > 0 {
+				sent = px.FrameBytes(byte(v), byte(flags), st, byte(msg.GetOpCode()), lz4Stored(u))
+				ctx.Count("lz4-body-from-another-compressor")
+			}
+		}
 		logical := sent[9:]
 		if flags.Contains(primitive.HeaderFlagCompressed) {
 			var err error
@@ -664,6 +683,23 @@ func pipelinedLargeRequests(ctx *Ctx, be *fb.Backend, p *fwProxy) {
 			ctx.Count(fmt.Sprintf("pipelined-large-request:attempts-%d", attempts))
 		}
 	}
+}
+
+// lz4Stored: the length prefix and a block that holds b as one run of literals.
+func lz4Stored(b []byte) []byte {
+	out := []byte{byte(len(b) >> 24), byte(len(b) >> 16), byte(len(b) >> 8), byte(len(b))}
+	if len(b) < 15 {
+		out = append(out, byte(len(b)<<4))
+	} else {
+		out = append(out, 0xf0)
+		n := len(b) - 15
+		for n >= 255 {
+			out = append(out, 255)
+			n -= 255
+		}
+		out = append(out, byte(n))
+	}
+	return append(out, b...)
 }
 
 // lz4Reference decodes an LZ4 block by the format specification, without optimisations (the harness's own decoder: the
